@@ -156,6 +156,7 @@ pub fn spec(check: &str, tier: &str) -> Option<CheckSpec> {
             base.extend(pick(fam::chan_family(2, 1, 2, true), n / 2));
             base.extend(pick(fam::arc_family(1, 2, 1, 3, false, false, false), n));
             base.extend(pick(fam::a_sc(1, 2, 2, 4, false), n));
+            base.extend(pick(fam::stat_programs("quick").into_iter().filter(|p| p.objs.tls.contains(&true) || p.objs.lazies.contains(&true)).collect(), n));
             base.extend(fam::lock_sentinels());
             let values = [Res::V(0), Res::V(1), Res::V(2), Res::Ok(0), Res::Err(0), Res::Ok(1)];
             let mut progs = vec![];
@@ -164,15 +165,19 @@ pub fn spec(check: &str, tier: &str) -> Option<CheckSpec> {
                 progs.extend(fam::with_crash_points(b, &values));
             }
             let nb = base.len();
+            let mut js = jobs("C06", tier, progs, &cfg);
+            for (i, lp) in fam::limit_crash_programs().into_iter().enumerate() {
+                js.push(Job { id: format!("C06-limits-{}", i), check: "C06".into(), tier: tier.into(), program: lp, cfg: cfg.clone(), extra: serde_json::json!({"mode": "limits"}) });
+            }
             Some(CheckSpec {
                 id: "C06",
                 level: "fault_enumeration",
                 rule: "base programs (evenly spaced members of LOCK, WAIT, CHAN, ARC, A-sc + sentinels) x every crash point: a panic inserted at every (thread, position), unconditionally and conditionally on each possible value of the preceding schedule-dependent result (so the failing iteration is first, middle or last); plus the base programs themselves (including ones that deadlock); after every run a sentinel model runs in the same process; non-trivial = the reference can reach the crash point",
                 assumptions: vec!["SC machine decides whether a crash point is reachable", "a fresh child process gives the sentinel's reference sequence"],
                 wall_cap: wall,
-                jobs: jobs("C06", tier, progs, &cfg),
+                jobs: js,
                 self_checks: vec![],
-                completed_level: format!("{} base programs", nb),
+                completed_level: format!("{} base programs + 3 branch-limit programs x every max_branches up to the need", nb),
                 abort_is_violation: true,
             })
         }
@@ -247,19 +252,19 @@ pub fn spec(check: &str, tier: &str) -> Option<CheckSpec> {
                 let step = (v.len() / n).max(1);
                 v.into_iter().step_by(step).collect()
             };
-            progs.extend(pick(fam::wait_family(1, 2, 2, 12, true, true, true), if tier == "quick" { 16 } else { 400 }));
+            progs.extend(pick(fam::wait_family(1, 2, 2, 12, true, true, true), if tier == "quick" { 10 } else { 400 }));
             progs.extend(pick(fam::chan_family(2, 2, 2, true), if tier == "quick" { 6 } else { 60 }));
             progs.extend(pick(fam::a_sc(1, 2, 2, 4, false), if tier == "quick" { 10 } else { 170 }));
-            progs.extend(pick(fam::stat_programs("quick"), if tier == "quick" { 24 } else { 300 }));
+            progs.extend(pick(fam::stat_programs("quick"), if tier == "quick" { 14 } else { 300 }));
             let mut cfg = cfg.clone();
-            cfg.iter_cap = if tier == "quick" { 500 } else { 2500 };
+            cfg.iter_cap = if tier == "quick" { 300 } else { 2500 };
             let mut js = jobs("C13", tier, progs.clone(), &cfg);
             // the same with a preemption bound (the bound is part of what a checkpoint must carry)
             let bounded: Vec<Program> = progs.iter().filter(|p| p.threads.len() >= 3 && p.objs.tls.is_empty()).cloned().collect();
             for (bi, b) in [1usize, 2].iter().enumerate() {
                 let mut c2 = cfg.clone();
                 c2.preemption_bound = Some(*b);
-                let step = if tier == "quick" { 3 } else { 1 };
+                let step = if tier == "quick" { 5 } else { 1 };
                 let sel: Vec<Program> = bounded.iter().skip(bi).step_by(step).cloned().collect();
                 let mut more = jobs("C13", tier, sel, &c2);
                 for j in more.iter_mut() {
@@ -477,6 +482,8 @@ pub fn c16_programs(tier: &str) -> Vec<Program> {
     let k = if tier == "quick" { 2 } else { 5 };
     v.extend(pick(fam::asc_sentinels(), k));
     v.extend(pick(fam::lit_sentinels().into_iter().filter(|p| p.name.starts_with("S24-SB") || p.name.starts_with("S27")).collect(), k));
+    // programs with SeqCst fences in several threads (the only users of the global seq-cst clock)
+    v.extend(pick(fam::lit_sentinels().into_iter().filter(|p| p.name.starts_with("S-RWC") || p.name.starts_with("S-W+RWC") || (p.name.starts_with("S24-MP+F") && p.text().contains("fence.sc"))).collect(), 3));
     v.extend(pick(fam::lock_sentinels(), k));
     v.extend(pick(fam::wait_family(1, 2, 2, 12, true, true, true), k + 1));
     v.extend(pick(fam::chan_family(2, 1, 2, true), k));
